@@ -249,18 +249,18 @@ MATCHERS = {"C05-bare-zone-releases-siblings": _known_bare_sibling,
 
 
 def run(ctx):
-    if ctx.replay:
-        cases = [json.load(open(ctx.replay))["case"]]
-        cases[0].setdefault("lines", None)
-        raise engine.Machinery("replay for C05: re-run the check; cases are regenerated from the model")
     shapes = {"top", "d1", "d3", "sec", "bare", "baresib", "two", "tworev", "three", "cmt", "last"}
-    if ctx.thorough:
+    want = json.load(open(ctx.replay))["case"] if ctx.replay else None
+    if ctx.thorough or want is not None:
         consts = dict(MaxLines=3, Fences={3, 4, 5, 6}, Shapes=shapes)
     else:
         consts = dict(MaxLines=2, Fences={3, 4, 6}, Shapes=shapes)
     res = ctx.model("Zones", constants=consts, invariants=["EmitCase", "ShortRunsOnly"], required_actions=["AddLine"])
     cases = list(res.payload_lines())
-    if not ctx.thorough:
+    if want is not None:
+        wz = want.get("z", want)
+        cases = [c for c in cases if c["z"] == wz]
+    elif not ctx.thorough:
         # quick: all single-line zones, and two-line zones for the plain shapes only
         cases = [c for c in cases if len(c["z"]["ls"]) <= 1 or c["z"]["shape"] in ("top", "d1", "sec", "bare", "tworev")]
     try:
